@@ -487,7 +487,10 @@ class LinearTransform(SpatialTransform):
         r"""Get matrix representation of linear transformation or shallow copy with parameters set from matrix."""
         if arg is None:
             return as_homogeneous_matrix(self.tensor())
-        return shallow_copy(self).matrix_(arg)
+        copy = shallow_copy(self)
+        # Shallow copy shares container of parameters, which matrix_() replaces
+        copy._parameters = copy._parameters.copy()
+        return copy.matrix_(arg)
 
     def matrix_(self: TLinearTransform, arg: Tensor) -> TLinearTransform:
         raise NotImplementedError(f"{type(self).__name__}.matrix_()")
